@@ -4,9 +4,9 @@ from vlib import std, hbuild, coq, common
 
 PID = "C57"
 META = {
-    "text": "placeholder",
-    "note": "placeholder",
-    "technique": "Coq proof (inductive invariant over the slot-by-slot rebuild; fuel sufficiency by counting measures) + extracted-model differential correspondence against the real Rock::Rebuild",
+    "text": "Model (RockrebuildModel.v): the whole Rock::Rebuild job, line by line (loadOneSlot, DbCellHeader::empty/sane, useNewSlot's five loading states, startNewEntry/primeNewEntry, addSlotToEntry with chaining, inode conflict, metadata import (storeRebuildParseEntry size rules), size mismatch, overflow, mapSlot, finalizeOrThrow/finalizeOrFree, freeBadEntry, freeSlot, the validation passes) over the StoreMap anchors/slices and the free-slot index it drives; assert()s and escaping Must()s are explicit outcomes. Theorems (Properties_C57.v, 13, closed under the global context), for EVERY image (any number of slots, any field values, any truncation): the rebuild terminates (the fuel of the three link-following loops provably suffices); every entry left readable has a chain that ends, visits no slot twice, and consists of loaded (mapped+finalized) db slots with positive sizes; no slot is in the chains of two readable entries; the chain's payload sizes add up to the bytes recorded for the entry; nothing stays locked. The remaining clauses of the property are REFUTED for the code as it is, each by a vm_compute witness that is replayed against the real code on every run (corpus/C57/known.txt, known findings): squid dies on an all-ones size field and on cross-linked chains (double push into the free-slot index; -S pass), a readable entry's slot can be in the free-slot index, chain sizes need not add up to swap_file_sz (short chain ending in -1), entries without inode are indexed, chains may mix keys and versions, the anchor key is taken from the swap metadata. The model is tied to the code by differential runs of the extracted model against the real Rock::Rebuild + StoreMap + PageStack + store_rebuild.cc compiled from the working tree (full final state compared: every LoadingEntry/LoadingSlot, anchor, slice, counter and the free-slot index).",
+    "note": "PARTIAL: (1) `sizes add up to the entry size` is proved for LoadingEntry::size only (C57_chain_sizes_add_up_partial); equality with swap_file_sz is refuted. (2) crash-freedom, chain-slots-not-free, inode completeness, one-key/one-version chains are refuted (known findings C57-*), not proved under restrictions. (3) completeness (an intact, unique chain is indexed) is not proved in Coq; it is part of the Python oracle evaluated on every implementation answer (0 failures). Trusted: Coq kernel, extraction, gen/gen_rockrebuild.cc, harness/h_rockrebuild.cc (builds the db file from the case line, drives the job with start()/steps() exactly as the event loop would but without the 10 ms timers, dumps state through #define private public; replaces xassert by a throwing one); the swap-metadata parser (Store::UnpackIndexSwapMeta) is abstracted to its result (zeroed / unparsable / key, swap_file_sz, KEY_PRIVATE, header length) and read errors, concurrent from-network entries (leIgnored) and resumed rebuilds are not generated. The hand-written model is validated against the code only on the generated images.",
+    "technique": "Coq proof (inductive invariant over the slot-by-slot rebuild with a frame lemma; fuel sufficiency by counting measures; vm_compute witnesses for the refuted clauses) + extracted-model differential correspondence against the real Rock::Rebuild",
 }
 
 # link recipe of src/tests/testRock (make -n tests/testRock), minus tests/testRock.o and tests/stub_store_rebuild.o:
@@ -397,6 +397,9 @@ def violations(case, out):
                 v.append(("oracle:size-sum", "entry %d: payload sizes of chain %s add up to %d, entry size is %d" % (f, chain, total, e["swapsz"])))
         if not ondisk:
             continue
+        m0 = slots[chain[0]]["meta"]
+        if slots[chain[0]]["first"] == chain[0] and not (isinstance(m0, dict) and m0["hk"] and not m0["priv"]):
+            v.append(("oracle:bad-metadata-indexed", "entry %d is indexed although its inode carries no usable public swap metadata" % f))
         if slots[chain[0]]["first"] != chain[0]:
             v.append(("oracle:no-inode", "entry %d: chain %s does not start at an inode slot" % (f, chain)))
         keys = set((slots[c]["k0"], slots[c]["k1"]) for c in chain)
@@ -432,7 +435,35 @@ def oracle_sig(case, out):
 
 
 def mutate(rng, case):
-    return case
+    """a neighbouring image: one header field of one cell changed, a cell zeroed, or a cell copied"""
+    a = case.split()
+    N = int(a[1])
+    idx = [k for k in range(4, len(a)) if a[k].startswith("H:")]
+    if not idx:
+        return case
+    k = rng.choice(idx)
+    f = a[k].split(":")
+    c = rng.random()
+    if c < 0.1:
+        a[k] = "E"
+    elif c < 0.2:
+        e = [j for j in range(4, len(a)) if a[j] == "E"]
+        if e:
+            a[rng.choice(e)] = a[k]
+    else:
+        j = rng.choice([3, 4, 5, 6, 7, 7, 6])
+        v = int(f[j])
+        if j in (6, 7):
+            v = rng.choice([-1, 0, k - 4, rng.randrange(N), N - 1, N])
+        elif j == 5:
+            v = rng.choice([0, 1, v + 1]) & 0xFFFFFFFF
+        elif j == 4:
+            v = rng.choice([0, 1, v + 1, max(v - 1, 0)]) & 0xFFFFFFFF
+        else:
+            v = rng.choice([0, v + 1, max(v - 1, 0), int(f[4])]) & U64
+        f[j] = str(v)
+        a[k] = ":".join(f)
+    return " ".join(a)
 
 
 def kind(c, o):
@@ -448,8 +479,12 @@ def kind(c, o):
 
 
 def run(res, tier):
-    res.rule = "tbd"
+    res.rule = ("db images of 7/15/31/63 slots: 0-6 intact chains of 1-4 cells (keys small, random 64-bit, wrapping, (0,0); colliding "
+                "index positions; repeated keys/versions; known or unknown entry size; swap metadata with size 0 / total / total-header) "
+                "then 0-6 mutations (payloadSize, version, firstSlot, nextSlot incl. self/cross/out-of-range links, entrySize incl. "
+                "all-ones, key, metadata zeroed/garbage/keyless/private/wrong size/other key, zeroed cell, copied cell, swapped links), "
+                "optional truncation of the file, optional -S; a case is non-trivial when the image holds at least one cell")
     std.run_standard(res, PID, tier, area="rockrebuild", build_impl=impl, gen_cases=gen_cases, oracle=oracle_sig,
                      corr_name="RockrebuildModel vs src/fs/rock/RockRebuild.cc, RockDbCell.h, src/store_rebuild.cc",
-                     gens=["rockrebuild"], n_quick=2500, n_thorough=40000, seed_salt=57, mutate=mutate,
+                     gens=["rockrebuild"], n_quick=1200, n_thorough=30000, seed_salt=57, mutate=mutate,
                      kind_fn=kind, nontrivial_fn=lambda c, o: " H:" in c)
